@@ -210,3 +210,9 @@ def run(chk, S: Session):
     except Exception as e:  # the dense prior constructor is exercised in C20/C08; here only the wiring matters
         r4.unknown("jetexpand_residual nlstsq wiring", f"could not evaluate: {type(e).__name__}: {e}", JETEXP)
     S.absorb(it)
+    # "its output ... is used as the linearisation point": the ODE convenience factory hands the caller's Taylor-point routine on to the residual constraint
+    # (rule of C11)
+    from ..harness import borrow
+
+    rb = chk.rule("R-C19-B", "the Taylor-point routine chosen by the caller reaches the constraint that linearises there: constraint_ode_ts1 forwards taylor_point (rule of C11)", floor=1)
+    borrow(chk, S, rb, "C11", lambda r, c: r == "R-C11-4" and "constraint_ode_ts1" in c)
